@@ -2,6 +2,7 @@
 //! Every harness states a contract (precondition via `assume`, postcondition via
 //! `assert!`) on the *real compiled crate*; nothing of ruint is copied here.
 #![allow(unused, clippy::all)]
+pub mod gen_macro_fns;
 pub mod oracle;
 pub mod sym;
 
